@@ -361,7 +361,7 @@ def run(rep: Report, tier: str) -> None:
 	ru = rep.rule('C13/semantic-members', 'members the tokenizer compares by type sit at the offsets of the characters they stand for (brackets, unary minus), in the default and the grammar definition', floor=8)
 	hs = tz.func('Tokenizer.handle_symbol')
 	used = sorted({attr_chain(n).split('.')[1] for f in (hs, ps) for n in ast.walk(f.node) if isinstance(n, ast.Attribute) and (attr_chain(n) or '').startswith('TokenTypes.') and attr_chain(n).count('.') == 1} - {'BeginCombine'})
-	lists = [n for n in ast.walk(hs.node) if isinstance(n, ast.List) and all((attr_chain(x) or '').startswith('TokenTypes.') for x in n.elts)]
+	lists = [n for n in ast.walk(hs.node) if isinstance(n, (ast.List, ast.Tuple, ast.Set)) and n.elts and all((attr_chain(x) or '').startswith('TokenTypes.') for x in n.elts)]
 	sets = [sorted(attr_chain(x).split('.')[1] for x in l.elts) for l in lists]
 	ru.check(sorted(sets) == sorted([['BraceL', 'BracketL', 'ParenL'], ['BraceR', 'BracketR', 'ParenR']]), 'bracket-sets', hs.where, f'handle_symbol opener/closer sets are {sets}')
 	for label, d in (('default', base), ('grammar', gram)):
